@@ -308,13 +308,28 @@ func (a itemStream) Next(ctx context.Context) Response {
 func (a itemStream) Close() { a.s.Close() }
 
 type groupStream struct {
-	s stream.Stream[[]int]
+	s     stream.Stream[[]int]
+	owned *[][]int // every group handed out so far (they belong to the consumer)
 }
 
 func (a groupStream) Next(ctx context.Context) Response {
+	// The groups received so far belong to the consumer, spare capacity included: a consumer that appends to
+	// them or recycles them - at any later time, also between a failed call and its retry - must not be able
+	// to disturb anything the stream hands out afterwards.
+	if a.owned != nil {
+		for _, g := range *a.owned {
+			full := g[:cap(g)]
+			for i := range full {
+				full[i] = -7
+			}
+		}
+	}
 	x, err := a.s.Next(ctx)
 	if err != nil {
 		return Response{Err: err}
+	}
+	if a.owned != nil {
+		*a.owned = append(*a.owned, x)
 	}
 	return Response{Items: append([]int{}, x...), Complete: true}
 }
@@ -635,7 +650,7 @@ func Build(c Case) (Subject, *Env, error) {
 		if c.N < 1 {
 			return nil, nil, fmt.Errorf("bad chunk size")
 		}
-		return groupStream{stream.Chunk(e.pre(e.mainSource()), c.N)}, e, nil
+		return groupStream{stream.Chunk(e.pre(e.mainSource()), c.N), new([][]int)}, e, nil
 	case "Compact":
 		return itemStream{stream.Compact(e.pre(e.mainSource()))}, e, nil
 	case "CompactFunc":
